@@ -119,6 +119,7 @@ func Load(repo string, bc BuildConfig) (*Ctx, error) {
 	computeFieldLenInvariants(c)
 	curCtx = c
 	writesNothingCache = map[*types.Func]int{}
+	fieldsWrittenCache = map[*types.Func]*fieldWrites{}
 	c.LoadDur = time.Since(t0)
 	return c, nil
 }
